@@ -242,6 +242,10 @@ def consumer_class(step):
     return P.chain_sig(step)
 
 
+def ALPHABET(p, level="full"):
+    return P.opt_ext_steps_for(p) + P.steps_for(p, "full")
+
+
 def minimize(case, problems):
     """delta-debugging on the step sequence: drop steps while the program stays valid for pandas and still fails in the same way
     (same stage-independent failure kind); the surviving steps name the finding"""
@@ -253,9 +257,9 @@ def minimize(case, problems):
         progress = False
         for i in range(len(prog) - 1, -1, -1):
             cand = tuple(prog[:i] + prog[i + 1 :])
-            st, _ = attempt(lambda: P.run_pandas(cand, root, None))
-            if st == "exc":
-                continue
+            st, cxs = attempt(lambda: P.run_pandas(cand, root, None))
+            if st == "exc" or not P.in_alphabet(cand, cxs, ALPHABET):
+                continue  # stay inside the enumerated space
             r = evaluate(case[:5] + (cand,), None)
             if r[0] == "fail" and r[1][0][1].split(":")[0] == kind0:
                 prog, problems, progress = list(cand), r[1], True
@@ -284,7 +288,8 @@ def run_shard(shard, ctx):
         if ctx.out_of_time():
             break
         ctx.guard(case, run_case, case, ctx, xs, hang_key="optimize:HANG")
-    ctx.count("inapplicable", counters.get("inapplicable", 0))
+    for name, n in counters.items():
+        ctx.count(name, n)
 
 
 def replay(case, ctx):
